@@ -45,7 +45,22 @@ def run(rep, prog, tier):
     if _is_callable_term(t):
         val = ev.apply(t, [A('t')], {}, m, 1)
         sp = spec(ev, "self.get_voltage(id)(t)*self.get_current(id)(t)", dict(envs, t=A('t')), m)
-        rep.ob('R05.formula', 'time-domain', compare_terms(val, sp), f'p(t) = {val!r:.200}', site, lhs=val, rhs=sp)
+        verdict = compare_terms(val, sp)
+        why = f'p(t) = {val!r:.200}'
+        if verdict is not True:
+            # p(t) = v(t) i(t) is a PRODUCT of the two sums over the frequency components.  One sum whose summand multiplies the voltage AND the
+            # current of the same component drops every cross term between different components (DC x AC, two tones): not the same function
+            def sums(k, out):
+                if isinstance(k, tuple):
+                    if (len(k) >= 2 and k[0] == 'Σ') or (len(k) >= 3 and k[:2] == ('opq', 'Σ')): out.append(k)
+                    for x in k: sums(x, out)
+                return out
+            mixed = [x for x in sums(tkey(val), []) if "'get_voltage'" in repr(x) and "'get_current'" in repr(x)
+                     and not any(y is not x and "'get_voltage'" in repr(y) and "'get_current'" in repr(y) for y in sums(x[2:] if x[:2] == ('opq', 'Σ') else x[1:], []))]
+            if mixed:
+                verdict = False
+                why = 'p(t) is ONE sum over the frequency components of (voltage of the component) x (current of the component): the cross terms between different components are missing, p(t) != v(t) i(t) -- ' + why
+        rep.ob('R05.formula', 'time-domain', verdict, why, site, lhs=val, rhs=sp)
     else:
         rep.ob('R05.formula', 'time-domain', None, f'get_power does not return a function: {t!r:.100}', site)
     # ---- transient: (tout, v_series * i_series)
